@@ -291,7 +291,7 @@ func (fx *c32Fixture) run(t c32Failer, r *c32Req) {
 	for _, p := range stored {
 		db := strings.SplitN(p, "/", 2)[0]
 		if db != r.ResolvedDB {
-			t.Fatalf("VERIF-FAIL class=C32/writer-wrong-database stored=%s request-named=%q status=%d\ncase: %s", p, r.ResolvedDB, status, r.describe())
+			t.Fatalf("VERIF-FAIL class=C32/writer-wrong-database stored=%s request-named=%q status=%d body=%s files=%v\ncase: %s", p, r.ResolvedDB, status, body, duck.FindParquet(fx.rootW), r.describe())
 		}
 		if !okPairs[p] {
 			t.Fatalf("VERIF-FAIL class=C32/writer-unchecked-target stored=%s allowed-checks=%v all-checks=%v status=%d body=%s\ncase: %s", p, c32Keys(okPairs), fx.rec.checks, status, body, r.describe())
